@@ -51,12 +51,7 @@ fn ilog2(v: u32) -> (r: u8)
 
 //@ stub u_digits/to_bitwise_digits_le
 
-//@ assume to_inexact_bitwise_digits_le : digit-bound part of the contract only; unit pending
-#[verifier::external_body]
-fn to_inexact_bitwise_digits_le(u: &BigUint, bits: u8) -> (r: Vec<u8>)
-    requires u.wf(), u.v() != 0, 1 <= bits <= 8, 64int % (bits as int) != 0
-    ensures r@.len() >= 1, forall|i: int| 0 <= i < r@.len() ==> (#[trigger] r@[i] as u32) < (1u32 << bits)
-{ unimplemented!() }
+//@ stub u_digits/to_inexact_bitwise_digits_le
 
 //@ assume to_radix_digits_le : digit-bound part of the contract only (every pushed digit is `r % radix`); unit pending
 #[verifier::external_body]
